@@ -33,7 +33,7 @@ CHECKS = {
                  "files with the codemod's extensions / only files carrying a finding of a requested rule); BOUNDED: nothing outside the target is "
                  "written through symlinked manifests or sources; the two file selections of a real context (find-and-fix: defaults when no "
                  "pattern; SAST: the user's patterns without the default excludes)."),
-        "note": "fnmatch, Path.rglob/is_symlink trusted; symlinked manifests (BaseParser.find_file_locations) and 'every fixable file is fixed' are out of reach.",
+        "note": "fnmatch, Path.rglob/is_symlink trusted; the ghost file system maps paths, not inodes (symlink aliasing is covered by the bounded stand-in only); 'every fixable file is fixed' is out of reach.",
         "design_ref": "DESIGN.md section 4 C05",
     },
     "C17": {
